@@ -267,6 +267,25 @@ func (b *c19Box) observe() c19State {
 	return st
 }
 
+// revertibleBadHead: the head of the repository does not compile, carries
+// an author e-mail, and its parent compiles - the case in which an
+// undisturbed newpolicy.sh reverts it.
+func (b *c19Box) revertibleBadHead() bool {
+	out, _ := sh(b.dir, b.env, `cd remote.git && git cat-file -e HEAD:BAD 2>/dev/null && [ -n "$(git log -1 --format=%ae HEAD)" ] && git rev-parse -q --verify HEAD~1 >/dev/null && ! git cat-file -e HEAD~1:BAD 2>/dev/null && echo REVERTIBLE && git show HEAD~1:data`)
+	if !strings.Contains(out, "REVERTIBLE") {
+		return false
+	}
+	// only if the compiling parent is not what 'current' already holds: then
+	// a compiling revision newer than the current policy waits below the head
+	f := strings.Fields(out)
+	parentData := f[len(f)-1]
+	cur, err := os.Readlink(filepath.Join(b.dir, "base", "policies", "current"))
+	if err != nil {
+		return true
+	}
+	return readTrim(filepath.Join(b.dir, "base", "policies", cur, "src", "data")) != parentData
+}
+
 // canon: policy numbers and data versions renamed by rank.
 func (st c19State) canon() string {
 	nums := map[string]int{}
@@ -494,6 +513,11 @@ func c19Worker(ctx *core.Ctx) *core.Result {
 						c19Violation(res, full, sig+":next-run", msg, "run")
 					} else if lr.exit != 0 {
 						c19Violation(res, full, "next-run-failed:"+eventKind(ev), fmt.Sprintf("the next undisturbed run ends with exit status %d", lr.exit), "run")
+					} else if lst.RemoteBad && lv.revertibleBadHead() {
+						// an undisturbed run reverts a bad head commit that has an
+						// author e-mail and a compiling parent, and compiles again
+						c19Violation(res, full, "next-run-leaves-revertible-bad-head:"+eventKind(ev)+":"+killedAt(ev, box),
+							fmt.Sprintf("the next undisturbed run ends with exit status 0 but leaves the non-compiling head commit in place (it has an author e-mail and a compiling parent): the revision below it never becomes current; state before that run: %s", st.canon()), "run")
 					} else if !lst.RemoteBad {
 						cur := filepath.Join(lv.dir, "base", "policies", lst.Current)
 						if lst.Current == "" || readTrim(filepath.Join(cur, "src", "data")) != lst.RemoteData {
@@ -583,7 +607,8 @@ func c19Run(ctx *core.Ctx) *core.Result {
 	defer os.RemoveAll(dir)
 	seen := map[string]bool{}
 	// initial states: empty db, one policy, failed state, (left-over next is reached by kills)
-	frontier := [][]string{{}, {"run"}, {"run", "commit-bad2", "run"}}
+	// the last start state has a good commit that no run has seen yet
+	frontier := [][]string{{}, {"run"}, {"run", "commit-bad2", "run"}, {"run", "commit-good"}}
 	for d := 1; d <= depth; d++ {
 		if ctx.Expired() {
 			total.Incomplete = append(total.Incomplete, fmt.Sprintf("deadline before depth %d", d))
@@ -638,7 +663,7 @@ func init() {
 				Bounds:      map[string]any{"quick": "depth 2 from 3 initial states", "thorough": "depth 3"},
 			}
 		},
-		QuickBudget:    170 * time.Second,
+		QuickBudget:    420 * time.Second,
 		ThoroughBudget: 60 * time.Minute,
 	}
 }
